@@ -7,11 +7,26 @@ PROP_V = ["Props/Properties_C11.v"]
 GEN_MODULES = ["Consts", "Sites"]
 FLOW_FILES = ['wait.c']
 REPLAY_HINT = "VRT_SEED=<seed> [VRT_NOBJ=<n>] [VRT_KIND=<k>] _work/h/waitn_mix"
-PARTIAL = ["C11_mutex is proved as C11_mutex_partial (unlock runs after every enqueue call and lock runs iff unlock ran); the design's stronger "
-           "reading 'unlock only if ALL enqueues succeeded' is refuted (C11_mutex_refuted): when the LAST object turns out ready at its enqueue, "
-           "nsync_wait_n still releases and re-acquires the mutex (needless but within the property: the mutex is held again on return)",
-           "the waitable objects are abstract in WaitNModel (their own models are NoteModel / CounterModel / CvModel)"]
-TRUSTED_BASE = ["Model/WaitNModel.v control skeleton and abstract objects: hand-written, validated by two-pass lock-step replay (replay/waitn_replay.ml)"]
+PARTIAL = ["C11_mutex is proved in state form (C11_mutex_state / C11_sleeps_unlocked / C11_mutex_held_on_return): a caller that held mu at the call holds it "
+           "through the first loop and the whole enqueue loop; it does not hold it at any pc between the unlock callback and the return, in particular while it "
+           "reads ready times or sleeps; it holds it again at the return.  In log form (C11_mutex_order, C11_mutex_partial): the unlock callback is older than "
+           "every P and newer than the enqueue calls of all indices count-1..0, none follows it, and lock runs iff unlock ran.  The stronger reading 'unlock only "
+           "if ALL enqueues succeeded' is refuted (C11_mutex_refuted): when the LAST object turns out ready at its enqueue, nsync_wait_n still releases and "
+           "re-acquires the mutex (needless but within the property: held again on return)",
+           "where the unlock did not run, 'holds the mutex' is conditional on the ghost f_held (the caller held mu when it called, which is the API's "
+           "precondition); the replay checks f_held = true at every replayed call",
+           "'does not keep sleeping after one becomes ready' is proved in three parts: C11_wakes (a woken record implies a post or a pending V); "
+           "C11_sleep_deadline (min_ntime is exactly min(abs_deadline, the count ready times of the round), so it is no later than any note's expiry); "
+           "C11_sleep_timeout_enabled with C11_slept_examined (at clock >= min_ntime the timeout step is enabled and every object is dequeued).  That the P "
+           "then really returns is liveness of the semaphore (C12) and the scheduler, not a theorem of this model, which has no fairness",
+           "the waitable objects are abstract in WaitNModel (abstractions A1-A6 at the top of Model/WaitNModel.v); their own models are NoteModel / CounterModel / CvModel"]
+TRUSTED_BASE = ["Model/WaitNModel.v control skeleton and abstract objects: hand-written, validated by two-pass lock-step replay (replay/waitn_replay.ml), "
+                "including footprint comparison, record-liveness at every atomic record access, and mutex-state verdicts at every step of a call with a mutex",
+                "merged steps (A1-A3): counter_ready_time's STORE waited + LOAD value are one step; nsync_counter_add's CAS and the ASSERT's load of `waited` are "
+                "one step (the interleaving in which C aborts is absent: the model panics iff waited was set before the CAS); nsync_note_notified_deadline_'s "
+                "load / note_mu section / clock read / notify are one step, sound because notified is monotone, expiry immutable and the clock only advances",
+                "the timed P may time out only at clock >= its deadline (C12's theorem used as a specification); the mutex is an abstract holder option "
+                "(C01/C02 are the licence)"]
 
 
 def run(tier, seed):
